@@ -72,6 +72,32 @@ func executeFloatMath(lhs, rhs float64, op ast.BinaryOperator) (float64, error) 
 	return res, nil
 }
 
+// integerMathOverflows returns true when the exact result of applying op to
+// lhs and rhs does not fit in an int64, in which case the operation must be
+// carried out on float64 values instead.
+func integerMathOverflows(lhs, rhs int64, op ast.BinaryOperator) bool {
+	switch op {
+	case ast.BinaryAdd:
+		sum := lhs + rhs
+		return (rhs > 0 && sum < lhs) || (rhs < 0 && sum > lhs)
+	case ast.BinarySub:
+		diff := lhs - rhs
+		return (rhs > 0 && diff > lhs) || (rhs < 0 && diff < lhs)
+	case ast.BinaryMul:
+		if lhs == 0 || rhs == 0 {
+			return false
+		}
+		if (lhs == -1 && rhs == math.MinInt64) || (rhs == -1 && lhs == math.MinInt64) {
+			return true
+		}
+		return (lhs*rhs)/rhs != lhs
+	case ast.BinaryDiv:
+		return lhs == math.MinInt64 && rhs == -1
+	default:
+		return false
+	}
+}
+
 // mathOperandErr creates an error for an invalid operand to op. pos is the
 // position of the operand, either "left" or "right".
 func mathOperandErr(op ast.BinaryOperator, pos string) error {
@@ -111,7 +137,12 @@ func (exec *Executor) execUnaryMathExpr(
 			if found == nil && next == nil {
 				return statusOK, nil
 			}
-			val = intCallback(v)
+			if v == math.MinInt64 {
+				// Negation would overflow; use the double result.
+				val = floatCallback(float64(v))
+			} else {
+				val = intCallback(v)
+			}
 		case float64:
 			if found == nil && next == nil {
 				return statusOK, nil
@@ -202,11 +233,17 @@ func execMathOp(left, right any, op ast.BinaryOperator) (any, error) {
 	case int64:
 		switch right := right.(type) {
 		case int64:
+			if integerMathOverflows(left, right, op) {
+				return executeFloatMath(float64(left), float64(right), op)
+			}
 			return executeIntegerMath(left, right, op)
 		case float64:
 			return executeFloatMath(float64(left), right, op)
 		case json.Number:
 			if right, err := right.Int64(); err == nil {
+				if integerMathOverflows(left, right, op) {
+					return executeFloatMath(float64(left), float64(right), op)
+				}
 				return executeIntegerMath(left, right, op)
 			}
 			if right, err := right.Float64(); err == nil {
